@@ -82,6 +82,9 @@ func linSearch(ops []*linOp, used []bool, perm []int, init *refMap) bool {
 // sequential order that respects real time must explain all results.
 func hC07(nthreads, opsPer, lastOps, nkinds, vlen int, withCompact bool, layout int) {
 	n := 2
+	if withCompact {
+		n = 3 // a chain with an overflow bucket (slotsPerBucket is scaled to 2) for compaction to walk
+	}
 	rec := 10 + 8 + vlen
 	opts := smallOpts(fs.Mem, 2, rec)
 	db, err := Open("c07", opts)
@@ -90,9 +93,14 @@ func hC07(nthreads, opsPer, lastOps, nkinds, vlen int, withCompact bool, layout 
 		return
 	}
 	r := newRef(n, 8)
-	vConstrainHashes(db, r, layout, true)
-	applyOp(db, r, 0, 0, vlen, "C07.prefix")
-	applyOp(db, r, 0, 1, vlen, "C07.prefix")
+	if withCompact {
+		vPinLowBits(db, r, []uint32{1, 1, 1}) // one bucket chain
+	} else {
+		vConstrainHashes(db, r, layout, true)
+	}
+	for i := 0; i < n; i++ {
+		applyOp(db, r, 0, i, vlen, "C07.prefix")
+	}
 	applyOp(db, r, 0, 0, vlen, "C07.prefix") // a dead record so that Compact has work
 	init := r.clone()
 	clock := 0
@@ -105,12 +113,20 @@ func hC07(nthreads, opsPer, lastOps, nkinds, vlen int, withCompact bool, layout 
 		}
 		for j := 0; j < counts[t]; j++ {
 			var code int
-			if t == 0 && j == 0 {
-				code = vCase() % (nkinds * n)
-			} else {
-				code = vChoice("op", nkinds*n)
+			kinds, base := nkinds, 0
+			if withCompact {
+				// with a Compact thread: the first thread writes (Put/Delete), the last one reads (Get/Has)
+				kinds = 2
+				if t == nthreads-1 {
+					base = 2
+				}
 			}
-			o := &linOp{kind: code / n, k: code % n}
+			if t == 0 && j == 0 {
+				code = vCase() % (kinds * n)
+			} else {
+				code = vChoice("op", kinds*n)
+			}
+			o := &linOp{kind: base + code/n, k: code % n}
 			if o.kind == 0 {
 				o.v = vBytes("val", vlen)
 			}
@@ -174,7 +190,9 @@ func hC07(nthreads, opsPer, lastOps, nkinds, vlen int, withCompact bool, layout 
 // kinds 0..3 = Put Delete Get Has (quick), 0..5 adds GetAppend and Count
 // H_C07_q: case = first op (8) x layout (2); threads with 2 + 1 operations
 func H_C07_q() { c := vCase(); hC07(2, 2, 1, 4, 2, false, (c/8)%2) }
-func H_C07_c() { c := vCase(); hC07(2, 1, 1, 4, 2, true, (c/8)%2) }
+
+// H_C07_c: 3 keys in one chain, case = first op (12): two threads with one operation each and a Compact thread
+func H_C07_c() { hC07(2, 1, 1, 4, 2, true, 0) }
 // thorough: case = first op (12) x layout (2)
 func H_C07_t22() { c := vCase(); hC07(2, 2, 2, 6, 2, false, (c/12)%2) }
 func H_C07_t() { c := vCase(); hC07(3, 2, 1, 4, 2, false, (c/8)%2) }
